@@ -8,7 +8,8 @@ package main
 //	UpdateModeValues{mode_values: V}                  values become V (no update mask: whole record)
 //	UpdateModeValues{mode_values: V, relative: R}     for every mode in R with a non-zero step s whose current value
 //	        is the i-th of its n available values, the value becomes the ((i+s) mod n)-th ("relative adjustments
-//	        win", "wrap around in both directions"); modes with step 0 and modes not in R take their value from V.
+//	        win", "wrap around in both directions"); modes not in R take their value from V; a mode with step 0 takes
+//	        the value from V (sc-api reading) or keeps its current one (counted as an observation, not judged).
 //	UpdateModeValues{relative: R} (nothing else)      the stepped modes as above; what happens to modes not named
 //	        in R is left open by the documentation (observed and counted, not judged).
 
@@ -301,7 +302,14 @@ func modeCase(r *vk.Run, idx int) {
 				}
 				t.viol("wrap", wop, "mode %q [%s]: current %q stepped by %d should be %q, is %q", name, strings.Join(available[name], ","), cur[name], step, want[name], gotV)
 			case stepped && step == 0:
-				t.viol("zero-step-overrides-absolute", op, "mode %q: relative step 0 with mode_values %q should give %q (sc-api: relative wins only when non-zero), is %q", name, req.GetModeValues().GetValues()[name], want[name], gotV)
+				// sc-api: "relative adjustments win" only "if the adjustment in relative is non-zero". The C20 statement does
+				// not fix what a zero step does, so a zero step that keeps the current value is observed, not judged; any
+				// other outcome (neither the absolute nor the current value) is still a wrong lookup.
+				if has && gotV == cur[name] {
+					r.Count("mode/open-domain:zero-step-overrides-absolute", 1)
+				} else {
+					t.viol("wrap", op+"-zero-step", "mode %q: step 0 with mode_values %q from current %q gave %q", name, want[name], cur[name], gotV)
+				}
 			default:
 				t.viol("absolute-not-applied", op, "mode %q: mode_values asked for %q, is %q", name, want[name], gotV)
 			}
